@@ -273,6 +273,7 @@ structure Sim (s t : State) : Prop where
   votes : t.votes = s.votes.map (swS frm to)
   inactiveQ : t.inactiveQ = s.inactiveQ
   activeQ : t.activeQ = s.activeQ
+  vest : ExtRel (sw frm to) id s.vest t.vest
 
 variable {frm to}
 
@@ -446,6 +447,434 @@ theorem sim_setWithdraw {s t : State} (h : Sim frm to s t) (d w : Addr) :
     Sim frm to (setWithdraw s d w) (setWithdraw t (sw frm to d) (sw frm to w)) := by
   unfold setWithdraw
   exact { h with wdAddr := h.wdAddr.put (sw_sw frm to) d w }
+
+theorem sw_beq (a b : Addr) : (sw frm to a == sw frm to b) = (a == b) := by
+  cases h : a == b
+  · cases h' : sw frm to a == sw frm to b
+    · rfl
+    · have := sw_inj frm to (eq_of_beq h'); subst this; simp at h
+  · have := eq_of_beq h; subst this; simp
+
+theorem Sim.lockedOf {s t : State} (h : Sim frm to s t) (a : Addr) (d : Denom) :
+    lockedOf t (sw frm to a) d = lockedOf s a d := by
+  unfold Model.C14.lockedOf lockedAt
+  rw [h.vest.get_id a, h.now]
+
+theorem queue_push_red {γ : Type} (q : Queue γ) (t : Time) (x : Addr × γ) :
+    put (mapKV id (List.map (swP frm to)) q) t ((get (mapKV id (List.map (swP frm to)) q) t).getD [] ++ [swP frm to x]) =
+      mapKV id (List.map (swP frm to)) (put q t ((get q t).getD [] ++ [x])) := queue_push q t x
+
+theorem sim_redelegate {s t : State} (h : Sim frm to s t) (d : Addr) (src dst : Val) (amt r1 r2 : Nat) :
+    OptRel (Sim frm to) (redelegate s d src dst amt r1 r2) (redelegate t (sw frm to d) src dst amt r1 r2) := by
+  unfold redelegate
+  have e0 : get t.reds (sw frm to d, src, dst) = get s.reds (d, src, dst) := h.reds.get_id (d, src, dst)
+  have ea : t.redDstIdx.any (fun k => k.1 == src && k.2.1 == sw frm to d) =
+      s.redDstIdx.any (fun k => k.1 == src && k.2.1 == d) :=
+    h.redDstIdx.any (swM_swM frm to) _ _ (fun x => by simp only [swM, sw_beq])
+  rw [h.vals, ea, e0, h.maxEntries, h.now, h.unbondTime]
+  split
+  · trivial
+  · split
+    · trivial
+    · simp only
+      split
+      · trivial
+      · rcases (sim_unbond h d src amt r1).cases with ⟨e1, e2⟩ | ⟨s1, t1, e1, e2, h1⟩
+        · rw [e1, e2]; trivial
+        · rw [e1, e2]
+          simp only
+          rcases (sim_addShares h1 d dst amt r2).cases with ⟨f1, f2⟩ | ⟨s2, t2, f1, f2, h2⟩
+          · rw [f1, f2]; trivial
+          · rw [f1, f2]
+            simp only [OptRel]
+            rw [h2.nextUnbId]
+            refine { h2 with nextUnbId := rfl, reds := h2.reds.put (swP_swP frm to) (d, src, dst) _,
+                             redSrcIdx := h2.redSrcIdx.ins (swM_swM frm to) (src, d, dst),
+                             redDstIdx := h2.redDstIdx.ins (swM_swM frm to) (dst, d, src),
+                             unbId := h2.unbId.put (fun _ => rfl) _ (d, src, some dst), redQ := ?_ }
+            dsimp only
+            rw [h2.redQ]
+            exact queue_push _ _ (d, src, dst)
+
+theorem ExtRel.foldl_del {κ ν α : Type} [BEq κ] [LawfulBEq κ] {kf : κ → κ} {vf : ν → ν} (hinv : ∀ k, kf (kf k) = k)
+    (g : α → κ) (L : List α) {m m' : Store κ ν} (h : ExtRel kf vf m m') :
+    ExtRel kf vf (L.foldl (fun u e => Model.C14.del u (g e)) m) (L.foldl (fun u e => Model.C14.del u (kf (g e))) m') := by
+  induction L generalizing m m' with
+  | nil => exact h
+  | cons e L ih => exact ih (h.del hinv (g e))
+
+theorem sim_completeUnbonding (hm : ModFix frm to) {s t : State} (h : Sim frm to s t) (d : Addr) (v : Val) :
+    Sim frm to (completeUnbonding s d v) (completeUnbonding t (sw frm to d) v) := by
+  unfold completeUnbonding
+  have e0 : get t.ubds (sw frm to d, v) = get s.ubds (d, v) := h.ubds.get_id (d, v)
+  rw [e0, h.now]
+  cases get s.ubds (d, v) with
+  | none => exact h
+  | some es =>
+    simp only
+    have hb : BalRel frm to
+        (match sendCoins s.bal notBondedPool d 0 (((es.filter (fun e => e.1 ≤ s.now)).map (fun e => e.2.1)).foldl (· + ·) 0) with
+          | some b => b | none => s.bal)
+        (match sendCoins t.bal notBondedPool (sw frm to d) 0 (((es.filter (fun e => e.1 ≤ s.now)).map (fun e => e.2.1)).foldl (· + ·) 0) with
+          | some b => b | none => t.bal) := by
+      have hs := h.bal.sendCoins notBondedPool d 0 (((es.filter (fun e => e.1 ≤ s.now)).map (fun e => e.2.1)).foldl (· + ·) 0)
+      rw [hm.notBonded] at hs
+      rcases hs.cases with ⟨b1, b2⟩ | ⟨b, b', b1, b2, hbb⟩
+      · rw [b1, b2]; exact h.bal
+      · rw [b1, b2]; exact hbb
+    have hu := ExtRel.foldl_del (kf := id) (vf := swP frm to) (fun _ => rfl) (fun e : Time × Nat × Nat => e.2.2)
+      (es.filter (fun e => e.1 ≤ s.now)) h.unbId
+    split
+    · exact { h with now := rfl, bal := hb, unbId := hu, ubds := h.ubds.del (swP_swP frm to) (d, v),
+                     ubdIdx := h.ubdIdx.rem (swS_swS frm to) (v, d) }
+    · exact { h with now := rfl, bal := hb, unbId := hu, ubds := h.ubds.put (swP_swP frm to) (d, v) _ }
+
+theorem sim_completeRedelegation {s t : State} (h : Sim frm to s t) (d : Addr) (src dst : Val) :
+    Sim frm to (completeRedelegation s d src dst) (completeRedelegation t (sw frm to d) src dst) := by
+  unfold completeRedelegation
+  have e0 : get t.reds (sw frm to d, src, dst) = get s.reds (d, src, dst) := h.reds.get_id (d, src, dst)
+  rw [e0, h.now]
+  cases get s.reds (d, src, dst) with
+  | none => exact h
+  | some es =>
+    simp only
+    have hu := ExtRel.foldl_del (kf := id) (vf := swP frm to) (fun _ => rfl) (fun e : Time × Nat × Nat => e.2.2)
+      (es.filter (fun e => e.1 ≤ s.now)) h.unbId
+    split
+    · exact { h with now := rfl, unbId := hu, reds := h.reds.del (swP_swP frm to) (d, src, dst),
+                     redSrcIdx := h.redSrcIdx.rem (swM_swM frm to) (src, d, dst),
+                     redDstIdx := h.redDstIdx.rem (swM_swM frm to) (dst, d, src) }
+    · exact { h with now := rfl, unbId := hu, reds := h.reds.put (swP_swP frm to) (d, src, dst) _ }
+
+theorem sim_foldl {α : Type} (f f' : State → α → State) (g : α → α)
+    (hstep : ∀ s t x, Sim frm to s t → Sim frm to (f s x) (f' t (g x))) (L : List α) {s t : State}
+    (h : Sim frm to s t) : Sim frm to (L.foldl f s) ((L.map g).foldl f' t) := by
+  induction L generalizing s t with
+  | nil => exact h
+  | cons x L ih => exact ih (hstep s t x h)
+
+theorem flatMap_mapKV {γ : Type} (q : Queue γ) :
+    (mapKV id (List.map (swP frm to)) q).flatMap (·.2) = (q.flatMap (·.2)).map (swP frm to) := by
+  induction q with
+  | nil => rfl
+  | cons p q ih =>
+    simp only [mapKV, List.map_cons, List.flatMap_cons, List.map_append] at ih ⊢
+    rw [ih]
+
+/-- the two halves of the staking end blocker -/
+def stakingEndU (s : State) : State :=
+  ((s.ubdQ.filter (fun p => p.1 ≤ s.now)).flatMap (·.2)).foldl (fun s p => completeUnbonding s p.1 p.2)
+    { s with ubdQ := s.ubdQ.filter (fun p => !(p.1 ≤ s.now)) }
+def stakingEndR (s : State) : State :=
+  ((s.redQ.filter (fun p => p.1 ≤ s.now)).flatMap (·.2)).foldl (fun s p => completeRedelegation s p.1 p.2.1 p.2.2)
+    { s with redQ := s.redQ.filter (fun p => !(p.1 ≤ s.now)) }
+
+theorem stakingEnd_eq (s : State) : stakingEnd s = stakingEndR (stakingEndU s) := rfl
+
+theorem sim_stakingEndU (hm : ModFix frm to) {s t : State} (h : Sim frm to s t) :
+    Sim frm to (stakingEndU s) (stakingEndU t) := by
+  unfold stakingEndU
+  have eL : (t.ubdQ.filter (fun p => p.1 ≤ t.now)).flatMap (·.2) =
+      ((s.ubdQ.filter (fun p => p.1 ≤ s.now)).flatMap (·.2)).map (swP frm to) := by
+    rw [h.ubdQ, h.now, filter_mapKV _ _ s.ubdQ (fun p => decide (p.1 ≤ s.now)) _ (fun _ => rfl), flatMap_mapKV]
+  have hq : t.ubdQ.filter (fun p => !(p.1 ≤ t.now)) =
+      mapKV id (List.map (swP frm to)) (s.ubdQ.filter (fun p => !(p.1 ≤ s.now))) := by
+    rw [h.ubdQ, h.now]
+    exact filter_mapKV _ _ s.ubdQ (fun p => !decide (p.1 ≤ s.now)) _ (fun _ => rfl)
+  have h1 : Sim frm to { s with ubdQ := s.ubdQ.filter (fun p => !(p.1 ≤ s.now)) }
+      { t with ubdQ := t.ubdQ.filter (fun p => !(p.1 ≤ t.now)) } := { h with ubdQ := hq }
+  rw [eL]
+  exact sim_foldl (fun s (p : Addr × Val) => completeUnbonding s p.1 p.2)
+    (fun s (p : Addr × Val) => completeUnbonding s p.1 p.2) (swP frm to)
+    (fun s t x hst => sim_completeUnbonding hm hst x.1 x.2) _ h1
+
+theorem sim_stakingEndR {s t : State} (h : Sim frm to s t) :
+    Sim frm to (stakingEndR s) (stakingEndR t) := by
+  unfold stakingEndR
+  have eL : (t.redQ.filter (fun p => p.1 ≤ t.now)).flatMap (·.2) =
+      ((s.redQ.filter (fun p => p.1 ≤ s.now)).flatMap (·.2)).map (swP frm to) := by
+    rw [h.redQ, h.now, filter_mapKV _ _ s.redQ (fun p => decide (p.1 ≤ s.now)) _ (fun _ => rfl), flatMap_mapKV]
+  have hq : t.redQ.filter (fun p => !(p.1 ≤ t.now)) =
+      mapKV id (List.map (swP frm to)) (s.redQ.filter (fun p => !(p.1 ≤ s.now))) := by
+    rw [h.redQ, h.now]
+    exact filter_mapKV _ _ s.redQ (fun p => !decide (p.1 ≤ s.now)) _ (fun _ => rfl)
+  have h1 : Sim frm to { s with redQ := s.redQ.filter (fun p => !(p.1 ≤ s.now)) }
+      { t with redQ := t.redQ.filter (fun p => !(p.1 ≤ t.now)) } := { h with redQ := hq }
+  rw [eL]
+  exact sim_foldl (fun s (p : Addr × Val × Val) => completeRedelegation s p.1 p.2.1 p.2.2)
+    (fun s (p : Addr × Val × Val) => completeRedelegation s p.1 p.2.1 p.2.2) (swP frm to)
+    (fun s t x hst => sim_completeRedelegation hst x.1 x.2.1 x.2.2) _ h1
+
+theorem sim_stakingEnd (hm : ModFix frm to) {s t : State} (h : Sim frm to s t) :
+    Sim frm to (stakingEnd s) (stakingEnd t) := by
+  rw [stakingEnd_eq, stakingEnd_eq]
+  exact sim_stakingEndR (sim_stakingEndU hm h)
+
+/-! ### gov -/
+
+/-- proposals agree on everything the later operations read -/
+def PropsRel (m m' : Store Nat Proposal) : Prop := ∀ id, (get m' id).map pcore = (get m id).map pcore
+
+theorem PropsRel.del {m m' : Store Nat Proposal} (h : PropsRel m m') (k : Nat) :
+    PropsRel (Model.C14.del m k) (Model.C14.del m' k) := by
+  intro id
+  by_cases hk : id = k
+  · subst hk; rw [get_del_eq, get_del_eq]
+  · rw [get_del_ne _ _ _ hk, get_del_ne _ _ _ hk]; exact h id
+
+theorem PropsRel.put {m m' : Store Nat Proposal} (h : PropsRel m m') (k : Nat) (p p' : Proposal)
+    (hp : pcore p' = pcore p) : PropsRel (Model.C14.put m k p) (Model.C14.put m' k p') := by
+  intro id
+  by_cases hk : id = k
+  · subst hk; rw [get_put_eq, get_put_eq]; simp [hp]
+  · rw [get_put_ne _ _ _ _ hk, get_put_ne _ _ _ _ hk]; exact h id
+
+theorem PropsRel.cases {m m' : Store Nat Proposal} (h : PropsRel m m') (id : Nat) :
+    (get m id = none ∧ get m' id = none) ∨ ∃ p p', get m id = some p ∧ get m' id = some p' ∧ pcore p' = pcore p := by
+  have := h id
+  cases h1 : get m id <;> cases h2 : get m' id <;> simp [h1, h2] at this
+  · exact Or.inl ⟨rfl, rfl⟩
+  · exact Or.inr ⟨_, _, rfl, rfl, this⟩
+
+theorem pcore_fields {p p' : Proposal} (h : pcore p' = pcore p) :
+    p'.status = p.status ∧ p'.depEnd = p.depEnd ∧ p'.voteEnd = p.voteEnd ∧ p'.total = p.total := by
+  simp only [pcore, Prod.mk.injEq] at h
+  exact h
+
+theorem refund_fold (hm : ModFix frm to) (L : Store (Nat × Addr) Nat) {b b' : Bal} (h : BalRel frm to b b') :
+    BalRel frm to
+      (L.foldl (fun b p => match sendCoins b govMod p.1.2 0 p.2 with | some b' => b' | none => b) b)
+      ((mapKV (swS frm to) id L).foldl (fun b p => match sendCoins b govMod p.1.2 0 p.2 with | some b' => b' | none => b) b') := by
+  induction L generalizing b b' with
+  | nil => exact h
+  | cons p L ih =>
+    simp only [mapKV, List.map_cons, List.foldl_cons] at ih ⊢
+    apply ih
+    have hs := h.sendCoins govMod p.1.2 0 p.2
+    rw [hm.gov] at hs
+    simp only [swS, id]
+    rcases hs.cases with ⟨b1, b2⟩ | ⟨c, c', b1, b2, hcc⟩
+    · rw [b1, b2]; exact h
+    · rw [b1, b2]; exact hcc
+
+theorem sim_refundDeposits (hm : ModFix frm to) {s t : State} (h : Sim frm to s t) (id : Nat) :
+    Sim frm to (refundDeposits s id) (refundDeposits t id) := by
+  unfold refundDeposits
+  have hf1 : t.deposits.filter (fun p => p.1.1 == id) = mapKV (swS frm to) _root_.id (s.deposits.filter (fun p => p.1.1 == id)) := by
+    rw [h.deposits]; exact filter_mapKV _ _ s.deposits _ _ (fun _ => rfl)
+  have hf2 : t.deposits.filter (fun p => !(p.1.1 == id)) =
+      mapKV (swS frm to) _root_.id (s.deposits.filter (fun p => !(p.1.1 == id))) := by
+    rw [h.deposits]; exact filter_mapKV _ _ s.deposits _ _ (fun _ => rfl)
+  simp only
+  rw [hf1]
+  exact { h with bal := refund_fold hm _ h.bal, deposits := hf2 }
+
+theorem sim_foldl_same {α : Type} (f f' : State → α → State)
+    (hstep : ∀ s t x, Sim frm to s t → Sim frm to (f s x) (f' t x)) (L : List α) {s t : State}
+    (h : Sim frm to s t) : Sim frm to (L.foldl f s) (L.foldl f' t) := by
+  induction L generalizing s t with
+  | nil => exact h
+  | cons x L ih => exact ih (hstep s t x h)
+
+def govEndI (s : State) : State :=
+  (s.inactiveQ.filter (fun p => p.1 ≤ s.now)).foldl (fun s p => refundDeposits { s with props := del s.props p.2 } p.2)
+    { s with inactiveQ := s.inactiveQ.filter (fun p => !(p.1 ≤ s.now)) }
+def govEndA (s1 : State) : State :=
+  (s1.activeQ.filter (fun p => p.1 ≤ s1.now)).foldl (fun s p =>
+      let s' := refundDeposits s p.2
+      { s' with votes := s'.votes.filter (fun x => !(x.1 == p.2)),
+                props := match get s'.props p.2 with
+                         | some pr => put s'.props p.2 { pr with status := 2 }
+                         | none => s'.props })
+    { s1 with activeQ := s1.activeQ.filter (fun p => !(p.1 ≤ s1.now)) }
+
+theorem govEnd_eq (s : State) : govEnd s = govEndA (govEndI s) := rfl
+
+theorem sim_govEndI (hm : ModFix frm to) {s t : State} (h : Sim frm to s t) : Sim frm to (govEndI s) (govEndI t) := by
+  unfold govEndI
+  have eL : t.inactiveQ.filter (fun p => p.1 ≤ t.now) = s.inactiveQ.filter (fun p => p.1 ≤ s.now) := by
+    rw [h.inactiveQ, h.now]
+  have eR : t.inactiveQ.filter (fun p => !(p.1 ≤ t.now)) = s.inactiveQ.filter (fun p => !(p.1 ≤ s.now)) := by
+    rw [h.inactiveQ, h.now]
+  rw [eL]
+  refine sim_foldl_same _ _ (fun s t x hst => ?_) _ (s := { s with inactiveQ := _ }) (t := { t with inactiveQ := _ })
+    { h with inactiveQ := eR }
+  exact sim_refundDeposits hm (s := { s with props := del s.props x.2 }) (t := { t with props := del t.props x.2 })
+    { hst with props := PropsRel.del hst.props x.2 } x.2
+
+theorem sim_govEndA (hm : ModFix frm to) {s t : State} (h : Sim frm to s t) : Sim frm to (govEndA s) (govEndA t) := by
+  unfold govEndA
+  have eL : t.activeQ.filter (fun p => p.1 ≤ t.now) = s.activeQ.filter (fun p => p.1 ≤ s.now) := by
+    rw [h.activeQ, h.now]
+  have eR : t.activeQ.filter (fun p => !(p.1 ≤ t.now)) = s.activeQ.filter (fun p => !(p.1 ≤ s.now)) := by
+    rw [h.activeQ, h.now]
+  rw [eL]
+  refine sim_foldl_same _ _ (fun s t x hst => ?_) _ (s := { s with activeQ := _ }) (t := { t with activeQ := _ })
+    { h with activeQ := eR }
+  have h' := sim_refundDeposits hm hst x.2
+  generalize refundDeposits s x.2 = s' at h' ⊢
+  generalize refundDeposits t x.2 = t' at h' ⊢
+  simp only
+  have hv : t'.votes.filter (fun y => !(y.1 == x.2)) = (s'.votes.filter (fun y => !(y.1 == x.2))).map (swS frm to) := by
+    rw [h'.votes, List.filter_map]; rfl
+  have hp : PropsRel
+      (match get s'.props x.2 with | some pr => put s'.props x.2 { pr with status := 2 } | none => s'.props)
+      (match get t'.props x.2 with | some pr => put t'.props x.2 { pr with status := 2 } | none => t'.props) := by
+    rcases PropsRel.cases h'.props x.2 with ⟨e1, e2⟩ | ⟨p, p', e1, e2, hpp⟩
+    · rw [e1, e2]; exact h'.props
+    · rw [e1, e2]
+      obtain ⟨_, h2, h3, h4⟩ := pcore_fields hpp
+      exact PropsRel.put h'.props x.2 _ _ (by simp [pcore, h2, h3, h4])
+  exact { h' with votes := hv, props := hp }
+
+theorem sim_govEnd (hm : ModFix frm to) {s t : State} (h : Sim frm to s t) : Sim frm to (govEnd s) (govEnd t) := by
+  rw [govEnd_eq, govEnd_eq]
+  exact sim_govEndA hm (sim_govEndI hm h)
+
+theorem sim_endBlock (hm : ModFix frm to) {s t : State} (h : Sim frm to s t) (dt : Nat) :
+    Sim frm to (endBlock s dt) (endBlock t dt) := by
+  unfold endBlock
+  have h1 := sim_govEnd hm (sim_stakingEnd hm h)
+  simp only
+  exact { h1 with now := by show _ + dt = _ + dt; rw [h1.now] }
+
+theorem swS_inj' {β : Type} : ∀ a b : β × Addr, swS frm to a = swS frm to b → a = b := fun a b h => swS_inj frm to a b h
+
+theorem sim_submit (hm : ModFix frm to) {s t : State} (h : Sim frm to s t) (a : Addr) (dep : Nat) :
+    OptRel (Sim frm to) (submit s a dep) (submit t (sw frm to a) dep) := by
+  unfold submit
+  have hs := h.bal.sendCoins a govMod 0 dep
+  rw [hm.gov] at hs
+  rcases hs.cases with ⟨b1, b2⟩ | ⟨b, b', b1, b2, hbb⟩
+  · rw [b1, b2]; trivial
+  · rw [b1, b2]
+    simp only [OptRel]
+    rw [h.nextProp, h.minDeposit, h.now, h.depPeriod, h.votePeriod, h.inactiveQ, h.activeQ]
+    refine { h with now := rfl, depPeriod := rfl, votePeriod := rfl, minDeposit := rfl, bal := hbb, nextProp := rfl,
+                    inactiveQ := rfl, activeQ := rfl, props := PropsRel.put h.props _ _ _ rfl, deposits := ?_ }
+    dsimp only
+    split
+    · exact h.deposits
+    · rw [h.deposits]
+      exact put_mapKV swS_inj' _root_.id s.deposits (s.nextProp, a) dep
+
+theorem sim_deposit (hm : ModFix frm to) {s t : State} (h : Sim frm to s t) (a : Addr) (id amt : Nat) :
+    OptRel (Sim frm to) (deposit s a id amt) (deposit t (sw frm to a) id amt) := by
+  unfold deposit
+  rcases PropsRel.cases h.props id with ⟨e1, e2⟩ | ⟨p, p', e1, e2, hpp⟩
+  · rw [e1, e2]; trivial
+  · rw [e1, e2]
+    obtain ⟨h1, h2, h3, h4⟩ := pcore_fields hpp
+    simp only
+    rw [h1]
+    split
+    · trivial
+    · have hs := h.bal.sendCoins a govMod 0 amt
+      rw [hm.gov] at hs
+      rcases hs.cases with ⟨b1, b2⟩ | ⟨b, b', b1, b2, hbb⟩
+      · rw [b1, b2]; trivial
+      · rw [b1, b2]
+        simp only [OptRel]
+        have hg : get t.deposits (id, sw frm to a) = get s.deposits (id, a) := by
+          rw [h.deposits]
+          have := get_mapKV (kf := swS frm to) swS_inj' _root_.id s.deposits (id, a)
+          simpa [swS] using this
+        rw [hg, h4, h2, h3, h.minDeposit, h.now, h.votePeriod, h.inactiveQ, h.activeQ]
+        refine { h with now := rfl, votePeriod := rfl, minDeposit := rfl, bal := hbb, inactiveQ := rfl, activeQ := ?_,
+                        props := PropsRel.put h.props _ _ _ ?_, deposits := ?_ }
+        · split <;> simp [pcore]
+        · rw [h.deposits]
+          exact put_mapKV swS_inj' _root_.id s.deposits (id, a) _
+        · by_cases hc : (p.status == 0 && decide (p.total + amt ≥ s.minDeposit)) = true <;> simp [hc]
+
+theorem sim_vote {s t : State} (h : Sim frm to s t) (a : Addr) (id : Nat) :
+    OptRel (Sim frm to) (vote s a id) (vote t (sw frm to a) id) := by
+  unfold vote
+  rcases PropsRel.cases h.props id with ⟨e1, e2⟩ | ⟨p, p', e1, e2, hpp⟩
+  · rw [e1, e2]; trivial
+  · rw [e1, e2]
+    obtain ⟨h1, _, _, _⟩ := pcore_fields hpp
+    simp only
+    rw [h1]
+    split
+    · trivial
+    · simp only [OptRel]
+      refine { h with votes := ?_ }
+      dsimp only
+      rw [h.votes]
+      exact ins_map swS_inj' s.votes (id, a)
+
+/-! ### one step, and every later history -/
+
+/-- an operation with source and target swapped -/
+def swOp (frm to : Addr) : Op → Op
+  | .send a b d n => .send (sw frm to a) (sw frm to b) d n
+  | .mint a d n => .mint (sw frm to a) d n
+  | .delegate d v amt rw => .delegate (sw frm to d) v amt rw
+  | .undelegate d v amt rw => .undelegate (sw frm to d) v amt rw
+  | .redelegate d a b amt r1 r2 => .redelegate (sw frm to d) a b amt r1 r2
+  | .withdraw d v rw => .withdraw (sw frm to d) v rw
+  | .setWithdraw d w => .setWithdraw (sw frm to d) (sw frm to w)
+  | .submit a dep => .submit (sw frm to a) dep
+  | .deposit a id amt => .deposit (sw frm to a) id amt
+  | .vote a id => .vote (sw frm to a) id
+  | .block dt => .block dt
+  | .migrate f t sg => .migrate (sw frm to f) (sw frm to t) sg
+
+def isMigrate : Op → Bool
+  | .migrate .. => true
+  | _ => false
+
+theorem sim_ofOpt {s t : State} (h : Sim frm to s t) {o o' : Option State} (ho : OptRel (Sim frm to) o o') :
+    Sim frm to (ofOpt s o).1 (ofOpt t o').1 ∧ (ofOpt s o).2 = (ofOpt t o').2 := by
+  rcases ho.cases with ⟨e1, e2⟩ | ⟨a, b, e1, e2, hab⟩
+  · rw [e1, e2]; exact ⟨h, rfl⟩
+  · rw [e1, e2]; exact ⟨hab, rfl⟩
+
+/-- **one step**: every operation other than a migration, run with swapped arguments on the swapped state, answers the
+same and leads to swapped states -/
+theorem sim_step (hm : ModFix frm to) (c : Cfg) {s t : State} (h : Sim frm to s t) (op : Op) (hop : isMigrate op = false) :
+    Sim frm to (step c s op).1 (step c t (swOp frm to op)).1 ∧ (step c s op).2 = (step c t (swOp frm to op)).2 := by
+  cases op with
+  | send a b d n =>
+    simp only [step, swOp]
+    apply sim_ofOpt h
+    unfold sendUnlocked
+    rw [h.lockedOf, h.bal a d]
+    split
+    · trivial
+    · rcases (h.bal.sendCoins a b d n).cases with ⟨b1, b2⟩ | ⟨x, x', b1, b2, hxx⟩
+      · rw [b1, b2]; trivial
+      · rw [b1, b2]; exact { h with bal := hxx }
+  | mint a d n => exact ⟨{ h with bal := h.bal.credit a d n }, rfl⟩
+  | delegate d v amt rw => exact sim_ofOpt h (sim_delegate hm h d v amt rw)
+  | undelegate d v amt rw => exact sim_ofOpt h (sim_undelegate hm h d v amt rw)
+  | redelegate d a b amt r1 r2 => exact sim_ofOpt h (sim_redelegate h d a b amt r1 r2)
+  | withdraw d v rw => exact sim_ofOpt h (sim_withdraw h d v rw)
+  | setWithdraw d w => exact ⟨sim_setWithdraw h d w, rfl⟩
+  | submit a dep => exact sim_ofOpt h (sim_submit hm h a dep)
+  | deposit a id amt => exact sim_ofOpt h (sim_deposit hm h a id amt)
+  | vote a id => exact sim_ofOpt h (sim_vote h a id)
+  | block dt => exact ⟨sim_endBlock hm h dt, rfl⟩
+  | migrate f t sg => simp [isMigrate] at hop
+
+/-- the answers of a history -/
+def trace (c : Cfg) : State → List Op → List String
+  | _, [] => []
+  | s, op :: ops => (step c s op).2 :: trace c (step c s op).1 ops
+
+/-- **every later history** without further migrations -/
+theorem sim_run (hm : ModFix frm to) (c : Cfg) (ops : List Op) (hops : ∀ op ∈ ops, isMigrate op = false) {s t : State}
+    (h : Sim frm to s t) :
+    Sim frm to (run c s ops) (run c t (ops.map (swOp frm to))) ∧ trace c s ops = trace c t (ops.map (swOp frm to)) := by
+  induction ops generalizing s t with
+  | nil => exact ⟨h, rfl⟩
+  | cons op ops ih =>
+    obtain ⟨h1, e1⟩ := sim_step hm c h op (hops op (List.mem_cons_self ..))
+    obtain ⟨h2, e2⟩ := ih (fun o ho => hops o (List.mem_cons_of_mem _ ho)) h1
+    refine ⟨?_, ?_⟩
+    · simpa [run] using h2
+    · simp only [trace, List.map_cons, e1, e2]
 
 end sim
 
